@@ -196,6 +196,27 @@ func (c *evalCtx) call(e *Expr) (tval, error) {
 		return tval{t: Forall([]Term{l}, Eq(Select(c.state().held, l, SInt), IntLit(0))), ty: tBool}, nil
 	case "alloc":
 		return tval{t: c.state().alloc, ty: tInt}, nil
+	case "cbStart":
+		// cbStart() (inside a callback closure): the allocation watermark when this invocation of the callback began,
+		// before the callee allocated the objects it hands over; everything the caller collected in earlier
+		// invocations is older, everything a "callback P assume fresh(..)" clause speaks about is younger
+		for f := c.fr; f != nil; f = f.parent {
+			if f.cbStart != nil {
+				return tval{t: *f.cbStart, ty: tInt}, nil
+			}
+		}
+		return tval{}, fmt.Errorf("cbStart() outside of a callback invocation")
+	case "csStart":
+		// csStart(): the allocation watermark at the moment the current critical section (epoch) began; defined at
+		// every lock acquisition (lockAcquired), never above the current watermark
+		e, ok := c.state().ghost["epoch"]
+		if !ok {
+			return tval{}, fmt.Errorf("csStart() needs the epoch ghost")
+		}
+		u.declareFun("epochStart", []string{"Int"}, SInt)
+		t := mk(SInt, "epochStart", e)
+		u.assume(True, Le(t, c.state().alloc))
+		return tval{t: t, ty: tInt}, nil
 	case "obj":
 		as, err := args()
 		if err != nil {
